@@ -801,6 +801,31 @@ func generate(r *lib.Run) {
 		r.Do("h", g.history(1+g.rng.Intn(2), w)...)
 		r.Stat("class.minihandler", 1)
 	}
+	// every retention point in isolation: a history of one received message of one kind (DHCP: two, a REQUEST needs
+	// its DISCOVER), the buffer scribbled after it, then the dump of every table
+	iso := []struct {
+		name string
+		f    func(h *hist)
+	}{
+		{"mactable_mac,host_ip", func(h *hist) { h.plain() }},
+		{"lease_key,lease_cid,lease_mac,lease_name,lease_xid,decline_cid,decline_mac,decline_xid,name_entry", func(h *hist) { h.dhcp(); h.dhcp() }},
+		{"router_mac,router_key,ndp_lla,ndp_prefix,ndp_route,ndp_rdnss,ndp_dnssl", func(h *hist) { h.ra() }},
+		{"dns_name,dns_rr_name,dns_cname,dns_ip", func(h *hist) { h.dns() }},
+		{"dns_rr_name(ptr)", func(h *hist) { h.dnsPTR() }},
+		{"mdns_name,mdns_mac,mdns_model,mdns_cache_key", func(h *hist) { h.mdns(false) }},
+		{"mdns_name(llmnr)", func(h *hist) { h.mdns(true) }},
+		{"nbns_name", func(h *hist) { h.nbns() }},
+		{"name_entry(ssdp)", func(h *hist) { h.ssdp() }},
+		{"name_entry(api),mactable_mac(capture)", func(h *hist) { h.appCall() }},
+	}
+	for _, c := range iso {
+		for i := 0; i < 6*scale; i++ {
+			h := g.newHist()
+			c.f(h)
+			r.Do("h", h.done()...)
+			r.Stat("rp."+c.name, 1)
+		}
+	}
 	// hunt list of the ICMPv6 spoofer (StartHunt on a frame's address view, StopHunt, wake-up)
 	for i := 0; i < 20*scale; i++ {
 		r.Do("k6", g.huntHistory(1+g.rng.Intn(5))...)
